@@ -21,9 +21,9 @@ typedef struct { int present[MAXU], val[MAXU]; } model_t;
 static sm_spec_t SP;
 static long n_unlink_head, n_unlink_mid, n_unlink_tail, n_maxchain;
 
-enum { OP_PUT, OP_REMOVE, OP_CLEAR, OP_SCANREMOVE, OP_ALIAS, OP_PUTHUGE };
+enum { OP_PUT, OP_REMOVE, OP_CLEAR, OP_SCANREMOVE, OP_ALIAS, OP_PUTHUGE, OP_GET };
 typedef struct { int kind, k, v; const char *label; } op_t;
-static op_t OPS[128]; static int NOPS; static long n_scanrm, n_scanrm_next;
+static op_t OPS[160]; static int NOPS; static long n_scanrm, n_scanrm_next;
 static const char *op_label(int op) { return OPS[op].label; }
 static int m_count(const model_t *m) { int c = 0; for (int i = 0; i < U; i++) c += m->present[i]; return c; }
 static int keyid(const char *name) { for (int i = 0; i < U; i++) if (!strcmp(KEYS[i], name)) return i; return -1; }
@@ -134,6 +134,14 @@ static int apply(qhashtbl_t *t, model_t *m, const op_t *op, int check, const cha
             else if (check && e != ENOMEM) vc_viol("map:put-huge", "%s: put of a value of SIZE_MAX/2 bytes refused with errno %d, not ENOMEM", after, e);
             break;
         }
+        case OP_GET: {   /* a read as an operation (see sm_histories in seqmc.h); v = newmem */
+            size_t sz = 4242; void *d = t->get(t, KEYS[op->k], &sz, op->v);
+            if (check) { if (!m->present[op->k]) { if (d) vc_viol("map:get-absent", "%s: get of absent key '%s' returned data", after, KEYS[op->k]); }
+                         else if (!d) vc_viol("map:get-missing", "%s: get of stored key '%s' returned NULL", after, KEYS[op->k]);
+                         else if (sz != VAL[m->val[op->k]].n || memcmp(d, VAL[m->val[op->k]].b, sz)) vc_viol("map:get-value", "%s: key '%s' returns %zu bytes, expected value version %d", after, KEYS[op->k], sz, m->val[op->k]); }
+            if (d && op->v) free(d);
+            break;
+        }
         case OP_ALIAS: {   /* the name argument is the table's own key string (zero-copy getnext of the v-th element): remove(name) / putstr(name, "hello") */
             if (m_count(m) <= op->v) return 1;
             qhashtbl_obj_t o; memset(&o, 0, sizeof o); int n = 0;
@@ -179,7 +187,7 @@ static int transition(const uint16_t *hist, int d, int opi, char *ckey, int verb
     for (int i = 0; i < d; i++) { snprintf(after, sizeof after, "step %d (op %d)", i, hist[i]); apply(t, &m, &OPS[hist[i]], verbose, after); if (verbose) observe(t, &m, after); }
     vc_asan_check();   /* reports raised by the history prefix belong to the transitions that ended in those ops */
     snprintf(after, sizeof after, "op %d", opi);
-    for (int i = 0; i < U; i++) if (m.present[i]) { size_t sz = 0; void *d = t->get(t, KEYS[i], &sz, true); if (d) sm_hold(d, VAL[m.val[i]].b, VAL[m.val[i]].n, "qhashtbl_get(newmem) taken before the operation"); }
+    if (!sm_hist_mode) for (int i = 0; i < U; i++) if (m.present[i]) { size_t sz = 0; void *d = t->get(t, KEYS[i], &sz, true); if (d) sm_hold(d, VAL[m.val[i]].b, VAL[m.val[i]].n, "qhashtbl_get(newmem) taken before the operation"); }
     apply(t, &m, &OPS[opi], 1, after);
     observe(t, &m, after);
     canon(t, ckey);
@@ -199,6 +207,7 @@ static void setup(void) {
     for (int k = 0; k < U; k++) OPS[NOPS++] = (op_t){OP_REMOVE, k, 0, "qhashtbl_remove"};
     OPS[NOPS++] = (op_t){OP_CLEAR, 0, 0, "qhashtbl_clear"};
     for (int k = 0; k < U; k++) OPS[NOPS++] = (op_t){OP_PUTHUGE, k, 0, "qhashtbl_put"};
+    for (int k = 0; k < U; k++) for (int nm = 0; nm < 2; nm++) OPS[NOPS++] = (op_t){OP_GET, k, nm, "qhashtbl_get"};
     for (int j = 1; j <= 3; j++) for (int k = 0; k < U; k++) OPS[NOPS++] = (op_t){OP_SCANREMOVE, k, j, "qhashtbl_getnext"};
     for (int j = 0; j < 2; j++) { OPS[NOPS++] = (op_t){OP_ALIAS, 0, j, "qhashtbl_remove"}; OPS[NOPS++] = (op_t){OP_ALIAS, 1, j, "qhashtbl_putstr"}; OPS[NOPS++] = (op_t){OP_ALIAS, 2, j, "qhashtbl_put"}; }
     snprintf(SP.prefix, sizeof SP.prefix, "hashtbl:%d:%d:%d:", RANGE, U, NV);
@@ -231,7 +240,7 @@ static int worker(int argc, char **argv) {
     if (vc_replay_key && !strncmp(vc_replay_key, "hashtblpair:", 12)) { int off; sscanf(vc_replay_key, "hashtblpair:%d:%n", &RANGE, &off); for (int i = 0; i < 3; i++) KEYS[i] = PAIRKEYS[i]; U = 3; NV = 2; setup(); vc_case("replay", vc_replay_key); return sm_replay(&SP, vc_replay_key + off); }
     if (vc_replay_key) {
         int off; if (sscanf(vc_replay_key, "hashtbl:%d:%d:%d:%n", &RANGE, &U, &NV, &off) < 3) return 1;
-        setup(); vc_case("replay", vc_replay_key); return sm_replay(&SP, vc_replay_key + off);
+        setup(); if (argc >= 5 && !strcmp(argv[4], "hist")) sm_hist_mode = 1; vc_case("replay", vc_replay_key); return sm_replay(&SP, vc_replay_key + off);
     }
     if (argc >= 2 && !strcmp(argv[1], "hugerange")) { hugerange(); return 0; }
     if (argc >= 3 && !strcmp(argv[1], "pair")) {
@@ -243,6 +252,11 @@ static int worker(int argc, char **argv) {
     if (argc < 4) return 1;
     RANGE = atoi(argv[1]); U = atoi(argv[2]); NV = atoi(argv[3]);
     setup();
+    if (argc >= 9 && !strcmp(argv[4], "hist")) {   /* hashtbl <range> <U> <NV> hist <n> <depth> <shard> <nshards>: unmerged histories from a table holding the first n keys */
+        int n = atoi(argv[5]); uint16_t seed[8];
+        for (int i = 0; i < n && i < 8; i++) for (int o = 0; o < NOPS; o++) if (OPS[o].kind == OP_PUT && OPS[o].k == i && OPS[o].v == i % NV) seed[i] = (uint16_t)o;
+        return sm_histories(&SP, seed, n, atoi(argv[6]), atol(argv[7]), atol(argv[8]));
+    }
     sm_search(&SP, 0);
     vc_stat_add("unlink_head", n_unlink_head); vc_stat_add("unlink_middle", n_unlink_mid); vc_stat_add("unlink_tail", n_unlink_tail); vc_stat_add("max_chain", n_maxchain); vc_stat_add("scans_with_removal", n_scanrm); vc_stat_add("scans_removing_the_next_node", n_scanrm_next);
     return 0;
